@@ -77,7 +77,9 @@ Fixpoint conforms (s : sch) (c : cfg) {struct s} : bool :=
 (* the syncs that are actually applied, in order (None = "ConfigMap not found"): every Create /
    changed Update syncs its ConfigMap; as long as the cache was never synced, the first
    IsCfgAvailable() (explicit, or at the start of the reconciliation that follows every event)
-   syncs whatever the informer cache holds at that moment *)
+   syncs whatever the informer cache holds at that moment. A restart is a fresh cache: it acts like
+   a sync without ConfigMap (everything back to the defaults) followed by the sync of the informer's
+   content by the first reconciliation. *)
 Fixpoint eff_syncs (avail : bool) (inf : option cmap) (ops : list op) : list (option cmap) :=
   match ops with
   | [] => []
@@ -85,6 +87,7 @@ Fixpoint eff_syncs (avail : bool) (inf : option cmap) (ops : list op) : list (op
       let inf' := inf_after inf o in
       (match o with
        | OSync c => [Some c]
+       | ORestart => [None; inf']
        | _ => if avail then [] else [inf']
        end) ++ eff_syncs true inf' t
   end.
@@ -111,26 +114,58 @@ Definition spec_effective (m : mode) (ls : labels) (sd : secdef) (s : section_in
   | _ => sd_default sd
   end.
 
-Definition spec_observe (m : mode) (sds : list secdef) (nodes : list labels) (ops : list op)
-  : list cfg :=
-  let syncs := eff_syncs false None ops in
-  flat_map (fun ls =>
-    map (fun isd => spec_effective m ls (snd isd) (last_good (fst isd) syncs))
-        (combine (seq 0 (length sds)) sds)) nodes.
+(* what node [nd] gets for a section: the layered value, with the node's own bandwidth annotation
+   on top of the one field it owns (a documented fourth, node-local layer) *)
+Definition spec_effective_n (m : mode) (nd : node) (sd : secdef) (s : section_in) : cfg :=
+  bw_apply sd nd (spec_effective m (n_labels nd) sd s).
+
+(* the Node objects after a history *)
+Definition nodes_fold (nodes : list (option node)) (ops : list op) : list (option node) :=
+  fold_left nodes_after ops nodes.
+
+Definition spec_node (m : mode) (sds : list secdef) (syncs : list (option cmap)) (nd : option node) : slo :=
+  match nd with
+  | None => None
+  | Some n => Some (map (fun isd => spec_effective_n m n (snd isd) (last_good (fst isd) syncs))
+                        (combine (seq 0 (length sds)) sds))
+  end.
+
+Definition spec_observe (m : mode) (sds : list secdef) (nodes : list (option node)) (ops : list op)
+  : list slo :=
+  map (spec_node m sds (eff_syncs false None ops)) (nodes_fold nodes ops).
 
 (* after every operation: the spec applied to the prefix of the history *)
-Definition spec_run (m : mode) (i : input) : list (list cfg) :=
+Definition spec_run (m : mode) (i : input) : list (list slo) :=
   map (fun k => spec_observe m (in_secs i) (in_nodes i) (firstn k (in_ops i)))
       (seq 1 (length (in_ops i))).
 
-(* ---------- the property ---------- *)
-Definition C20_holds (i : input) (obs : list Z) : Prop :=
-  obs = enc_obs (spec_run ideal i).
+(* ---------- the property ----------
+   The observable is cut into segments: one per (operation, node, section), or one per (operation,
+   node) for a Node that does not exist. Every segment has a list of ACCEPTED values:
+     - a Node that does not exist has no NodeSLO;
+     - a section of an existing node is the layered value with the node's bandwidth on top;
+     - for a node whose bandwidth annotation does not parse, the section that carries the bandwidth may
+       be withheld (nil) OR be the layered value without the annotation; every other section of that
+       node is layered as for any other node. *)
+Definition bw_unreadable (sd : secdef) (nd : node) : bool :=
+  match sd_bw sd, n_bw nd with Some _, BwBad => true | _, _ => false end.
+
+Definition spec_alts (m : mode) (nd : node) (sd : secdef) (s : section_in) : list cfg :=
+  spec_effective_n m nd sd s
+  :: (if bw_unreadable sd nd then [spec_effective m (n_labels nd) sd s] else []).
+
+Notation seg := (Z * list (list Z))%type.   (* clause reported on failure, accepted encodings *)
+
+Definition obs_matches (segs : list seg) (obs : list Z) : Prop :=
+  exists ch : list (list Z), Forall2 (fun c (s : seg) => In c (snd s)) ch segs /\ obs = concat ch.
 
 (* ---------- decision procedure ----------
    clause 1: a well-formed section is not layered default < cluster < first matching entry
    clause 2: an absent section (or a missing ConfigMap) does not give the defaults
    clause 3: a malformed section does not keep the previously effective settings
+   clause 4: the bandwidth-carrying section of a node whose annotation does not parse is neither
+             withheld nor layered
+   clause 5: a Node that does not exist has a NodeSLO
    clause 9: observable has trailing garbage *)
 Fixpoint eq_listZ (a b : list Z) : bool :=
   match a, b with
@@ -139,11 +174,14 @@ Fixpoint eq_listZ (a b : list Z) : bool :=
   | _, _ => false
   end.
 
-Fixpoint check_segs (segs : list (Z * list Z)) (obs : list Z) : Z :=
+Definition is_prefix (e obs : list Z) : bool := eq_listZ (firstn (length e) obs) e.
+
+Fixpoint check_segs (segs : list seg) (obs : list Z) : Z :=
   match segs with
   | [] => if is_nil obs then 0 else 9
-  | (cl, e) :: t =>
-      if eq_listZ (firstn (length e) obs) e then check_segs t (skipn (length e) obs) else cl
+  | (cl, alts) :: t =>
+      let rs := map (fun e => if is_prefix e obs then check_segs t (skipn (length e) obs) else cl) alts in
+      if existsb (Z.eqb 0) rs then 0 else hd cl rs
   end.
 
 Definition clause_of (i : nat) (syncs : list (option cmap)) : Z :=
@@ -153,19 +191,68 @@ Definition clause_of (i : nat) (syncs : list (option cmap)) : Z :=
   | SMalformed => 3
   end.
 
-Definition spec_segs_at (m : mode) (sds : list secdef) (nodes : list labels) (ops : list op)
-  : list (Z * list Z) :=
-  let syncs := eff_syncs false None ops in
-  flat_map (fun ls =>
-    map (fun isd => (clause_of (fst isd) syncs,
-                     enc (spec_effective m ls (snd isd) (last_good (fst isd) syncs))))
-        (combine (seq 0 (length sds)) sds)) nodes.
+Definition spec_segs_node (m : mode) (sds : list secdef) (syncs : list (option cmap)) (nd : option node)
+  : list seg :=
+  match nd with
+  | None => [(5, [no_slo])]
+  | Some n =>
+      map (fun isd => (if bw_unreadable (snd isd) n then 4 else clause_of (fst isd) syncs,
+                       map enc (spec_alts m n (snd isd) (last_good (fst isd) syncs))))
+          (combine (seq 0 (length sds)) sds)
+  end.
 
-Definition spec_segs (m : mode) (i : input) : list (Z * list Z) :=
+Definition spec_segs_at (m : mode) (sds : list secdef) (nodes : list (option node)) (ops : list op)
+  : list seg :=
+  flat_map (spec_segs_node m sds (eff_syncs false None ops)) (nodes_fold nodes ops).
+
+Definition spec_segs (m : mode) (i : input) : list seg :=
   flat_map (fun k => spec_segs_at m (in_secs i) (in_nodes i) (firstn k (in_ops i)))
            (seq 1 (length (in_ops i))).
 
-Definition prop_code (i : input) (obs : list Z) : Z := check_segs (spec_segs ideal i) obs.
+(* ---------- strict histories: delivery only through what the handlers enqueue ----------
+   The property is judged on strict histories that look like production: the history starts with the
+   controller start (ORestart: every existing Node is announced), at every (re)start at least one Node
+   exists, and no Node update changes the bandwidth annotation alone (EnqueueRequestForNode
+   ignores such an update by design; the annotation is outside the property). *)
+Definition bw_eqb (a b : bw) : bool :=
+  match a, b with
+  | BwNone, BwNone => true
+  | BwVal x, BwVal y => x =? y
+  | BwBad, BwBad => true
+  | _, _ => false
+  end.
+
+Definition op_loud (nodes : list (option node)) (o : op) : bool :=
+  match o with
+  | ONode i (Some nd) =>
+      match nth i nodes None with
+      | Some old => negb (labels_eqb (n_labels old) (n_labels nd)) || bw_eqb (n_bw old) (n_bw nd)
+      | None => true
+      end
+  | ORestart => existsb is_some nodes
+  | _ => true
+  end.
+
+Fixpoint ops_loud (nodes : list (option node)) (ops : list op) : bool :=
+  match ops with
+  | [] => true
+  | o :: t => op_loud nodes o && ops_loud (nodes_after nodes o) t
+  end.
+
+Definition wf_strict (i : input) : bool :=
+  match in_ops i with
+  | ORestart :: _ => ops_loud (in_nodes i) (in_ops i)
+  | _ => false
+  end.
+
+(* inside the quantifier of the property *)
+Definition in_scope (i : input) : bool := negb (in_strict i) || wf_strict i.
+
+Definition C20_holds (i : input) (obs : list Z) : Prop :=
+  in_scope i = true -> obs_matches (spec_segs ideal i) obs.
+
+Definition prop_code (i : input) (obs : list Z) : Z :=
+  if in_scope i then check_segs (spec_segs ideal i) obs else 0.
 
 (* Which known departure (if any) explains a failing observable: a non-zero signature is returned
    ONLY IF the WHOLE observable equals the faithful model's observable (so nothing else can hide
@@ -174,11 +261,20 @@ Definition prop_code (i : input) (obs : list Z) : Z := check_segs (spec_segs ide
    3 = both. 0 = the observable is fine, or it is not what the faithful model gives. *)
 Definition finding_code (i : input) (obs : list Z) : Z :=
   let f := enc_obs (spec_run faithful i) in
-  if eq_listZ obs (enc_obs (spec_run ideal i)) then 0
+  if prop_code i obs =? 0 then 0
   else if negb (eq_listZ obs f) then 0
   else if eq_listZ f (enc_obs (spec_run (mkMode true false) i)) then 1
   else if eq_listZ f (enc_obs (spec_run (mkMode false true) i)) then 2
   else 3.
+
+(* every Node value that occurs in a case: initially or through a node event *)
+Definition opt_list {A} (o : option A) : list A := match o with Some x => [x] | None => [] end.
+
+Definition op_nodes (o : op) : list node :=
+  match o with ONode _ (Some nd) => [nd] | _ => [] end.
+
+Definition node_values (nodes : list (option node)) (ops : list op) : list node :=
+  flat_map opt_list nodes ++ flat_map op_nodes ops.
 
 (* ---------- inputs on which the two known departures cannot show ---------- *)
 (* every always-marshalled scalar of a present struct is given in the text *)
@@ -230,9 +326,22 @@ Definition present (c : cfg) : bool := match c with Obj None => false | _ => tru
 Definition is_sobj (s : sch) : bool := match s with SObj _ => true | _ => false end.
 
 (* a merged section's strategy type is a struct and its built-in default is not nil *)
+Definition is_sleaf (s : sch) : bool := match s with SLeaf => true | _ => false end.
+
+(* the field the node's bandwidth annotation overrides is a scalar of the section's struct *)
+Definition wf_bw (s : sch) (sd : secdef) : bool :=
+  match sd_bw sd with
+  | None => true
+  | Some k => match s with
+              | SObj ss => match nth_error ss k with Some f => is_sleaf f | None => false end
+              | _ => false
+              end
+  end.
+
 Definition wf_secdef (s : sch) (sd : secdef) : bool :=
   conforms s (sd_default sd)
-  && (negb (sd_merge sd) || (present (sd_default sd) && is_sobj s)).
+  && (negb (sd_merge sd) || (present (sd_default sd) && is_sobj s))
+  && wf_bw s sd.
 
 Definition wf_section (s : sch) (x : section_in) : bool :=
   match x with
